@@ -12,7 +12,12 @@ func init() {
 			back := id.Uint16()
 			// the same through a packet header
 			p := xsens.NewMTData2Package(0, id)
-			pid := p.Identifier()
+			// the identifier as decoded from a raw packet header carrying v itself (reserved bits included); the
+			// constructed packet's header must decode to the same identifier
+			pid := xsens.MTData2Packet{byte(v >> 8), byte(v), 0}.Identifier()
+			if q := p.Identifier(); q != id {
+				pid = q
+			}
 			c.emit("id16", tup(zs(int64(v)),
 				tup(zs(int64(id.DataType)), zs(int64(id.CoordinateSystem)), zs(int64(id.Precision))),
 				zs(int64(back)),
